@@ -19,5 +19,7 @@ def run(chk, program, tier):
     R.gen_dec(chk, program, slots=['id', 'part_of_primary_key', 'raw_value'], rule='PK-FLAG', with_msg=True, with_flow=False)
     from .. import rules_msg
     rules_msg.hash_rules(chk, program)
+    from .. import rules_filter as F_
+    F_.hash_sees_every_field(chk, program)
     chk.unit('programs', chk.units.get('decoders_matched', 0))
     chk.floor('field_rows', chk.units.get('field_rows', 0), 3000)
